@@ -670,6 +670,29 @@ def sym_round(x, nd=None):
     return _real_round(x) if nd is None else _real_round(x, nd)
 
 
+class _F64(numpy.float64):
+    """numpy.float64 as seen by the code under test: a dtype-compatible type whose call keeps symbolic values"""
+    def __new__(cls, x=0.0):
+        if isinstance(x, numpy.ndarray):
+            return obj(x).copy() if x.dtype == object else numpy.float64(x)
+        if isinstance(x, Sym):
+            return x
+        return Sym(numpy.float64(x))
+
+
+class _F32(numpy.float32):
+    def __new__(cls, x=0.0):
+        if isinstance(x, numpy.ndarray):
+            if x.dtype != object:
+                return numpy.float32(x)
+            if getattr(x, "_is_f32", False):
+                return x            # numpy.float32(float32 array) is the same object
+            return obj(x).astype("float32")
+        if isinstance(x, Sym):
+            return obj(numpy.array(x, dtype=object)).astype("float32")[()]
+        return Sym(numpy.float32(x))
+
+
 class NP:
     """module-like proxy for numpy"""
 
@@ -679,6 +702,8 @@ class NP:
         self.random = Random()
         self.pi = numpy.pi
         self.newaxis = None
+        self.float64 = _F64
+        self.float32 = _F32
 
     def __getattr__(self, k):
         f = getattr(numpy, k)
@@ -802,17 +827,9 @@ class NP:
     def ascontiguousarray(self, x, dtype=None):
         return self.asarray(x, dtype)
 
-    def float32(self, x=0.0):
-        if isinstance(x, numpy.ndarray):
-            return obj(x).astype("float32")
-        if isinstance(x, Sym):
-            return obj(numpy.array(x, dtype=object)).astype("float32")[()]
-        return Sym(numpy.float32(x))
-
-    def float64(self, x=0.0):
-        if isinstance(x, numpy.ndarray):
-            return obj(x).copy()
-        return Sym.lift(x)
+    # numpy.float32 / numpy.float64 stay usable both as converters and as dtype arguments (promote_types, astype, ...)
+    float32 = None
+    float64 = None
 
     # ---- element-wise functions
     def sqrt(self, x):
